@@ -53,6 +53,9 @@ Definition firstn_N (n : N) (l : list N) : list N := firstn (N.to_nat n) l.
 Definition canon_of (bs : list N) (h0 : N) (r : dec_result) : bool :=
   match r with
   | DecPanic => false
+  | DecErr (Underflow need have) =>
+      (* underflow only when a 4-byte instruction was cut short *)
+      N.eqb (expect_len h0) 4 && N.eqb need 4 && N.eqb have (N.of_nat (length bs)) && N.ltb have 4
   | DecErr _ => true
   | DecOk n i =>
       N.eqb n (expect_len h0) && N.leb n (N.of_nat (length bs)) &&
